@@ -57,7 +57,8 @@ def err_mantissas(dense):
 def tasks(tier):
     xexps = list(range(-3, 4)) if tier == "quick" else (
         [-300] + list(range(-12, 13)) + [300])
-    offs = list(range(-4, 5)) if tier == "quick" else list(range(-12, 13))
+    offs = (list(range(-4, 5)) + [-12, -9, -6, 6, 9, 12]) if tier == "quick" \
+        else list(range(-12, 13))
     out = []
     for xe in xexps:
         for sign in (1, -1):
@@ -138,7 +139,7 @@ def run_task(task):
             and off in (0, 1)
         ems = err_mantissas(dense)
         if tier == "quick" and not dense:
-            ems = ems[::2]
+            ems = ems[::2] if abs(off) <= 4 else ems[::6]
         ee = xe + off
         if not -320 < ee < 305:
             continue
